@@ -97,17 +97,27 @@ class ExprMixin:
 
     def ev_Set(self, node, st):
         out = []
+        starred = []
         for e in node.elts:
             if isinstance(e, ast.Starred):
                 v = self.ev(e.value, st)
                 if isinstance(v, (list, tuple, frozenset)):
                     out.extend(v)
+                elif isinstance(v, SList):
+                    starred.append(v)
                 else:
                     return self.set_display(node, st)
             else:
                 out.append(self.ev(e, st))
-        if all(is_concrete(x) for x in out):
+        if not starred and all(is_concrete(x) for x in out):
             return frozenset(out)
+        if all(isinstance(x, SV) for x in out) and (starred or out):
+            # {*L1, .., e1, ..}: characteristic function = member of some Li or equal to some ej
+            from .spec import mem_term
+            ety = starred[0].ety if starred else out[0].ty
+            x = z3.Const(fresh_name("sx"), sort_of(ety))
+            return SSet(ety, z3.Lambda([x], z3.Or(*([mem_term(L, x) for L in starred] + [x == e.t for e in out]))),
+                        elems=None if starred else [e.t for e in out])
         return self.set_display(node, st)
 
     def ev_Dict(self, node, st):
@@ -638,7 +648,53 @@ class PathEnd(Exception):
 class CompMixin:
     """comprehensions as specification-level map/filter (order preserved, membership <=> source and condition)"""
 
+    def flatten_comp(self, node, st):
+        """[f(x, y) for x in A for y in g(x)] without conditions: fresh list R with index witnesses
+        OUT/INN (position -> source indices) and IDX (source indices -> position); order is not modelled"""
+        g0, g1 = node.generators
+        if g0.ifs or g1.ifs or g0.is_async or g1.is_async:
+            raise Unsupported("nested comprehension with conditions")
+        outer = self.iter_view(self.ev(g0.iter, st), st)
+        if outer[0] == "concrete":
+            outer = self.iter_view(self.as_slist(outer[1]), st)
+        _, n, elem = outer
+        i, j = z3.Int(fresh_name("fi")), z3.Int(fresh_name("fj"))
+        sub = st.copy()
+        self.assign_target(g0.target, elem(i), sub)
+        n_pending = len(self.pending)
+        inner = self.iter_view(self.ev(g1.iter, sub), sub)
+        if inner[0] == "concrete":
+            raise Unsupported("nested comprehension over a concrete inner sequence")
+        _, m_i, elem_in = inner
+        self.assign_target(g1.target, elem_in(j), sub)
+        val = self.ev(node.elt, sub)
+        if len(self.pending) != n_pending:
+            raise Unsupported("nested comprehension whose parts may raise")
+        if not isinstance(val, SV):
+            raise Unsupported("nested comprehension of non-scalar elements")
+        ety = val.ty
+        r = fresh(TList(ety), "flat")
+        OUT = z3.Function(fresh_name("flat_out"), z3.IntSort(), z3.IntSort())
+        INN = z3.Function(fresh_name("flat_in"), z3.IntSort(), z3.IntSort())
+        IDX = z3.Function(fresh_name("flat_idx"), z3.IntSort(), z3.IntSort(), z3.IntSort())
+        k = z3.Int(fresh_name("fk"))
+        m_at = lambda t: z3.substitute(m_i, (i, t))
+        v_at = lambda a, b: z3.substitute(val.t, (i, a), (j, b))
+        st.pc = st.pc + (
+            r.n >= 0,
+            z3.ForAll([k], z3.Implies(z3.And(0 <= k, k < r.n), z3.And(
+                0 <= OUT(k), OUT(k) < n, 0 <= INN(k), INN(k) < m_at(OUT(k)), r.a[k] == v_at(OUT(k), INN(k)), IDX(OUT(k), INN(k)) == k)),
+                      patterns=[r.a[k]]),
+            z3.ForAll([i, j], z3.Implies(z3.And(0 <= i, i < n, 0 <= j, j < m_i), z3.And(
+                0 <= IDX(i, j), IDX(i, j) < r.n, OUT(IDX(i, j)) == i, INN(IDX(i, j)) == j, r.a[IDX(i, j)] == val.t)),
+                      patterns=[val.t, IDX(i, j)]),
+        )
+        self.last_flatten = (OUT, INN, IDX)
+        return r
+
     def ev_ListComp(self, node, st):
+        if len(node.generators) == 2:
+            return self.flatten_comp(node, st)
         if len(node.generators) != 1 or node.generators[0].is_async:
             raise Unsupported("comprehension with several generators")
         gen = node.generators[0]
@@ -697,5 +753,7 @@ class CompMixin:
                                       z3.And(0 <= srcf(j), srcf(j) < n, c_at(srcf(j)), r.a[j] == f_at(srcf(j)), invf(srcf(j)) == j))),
             z3.ForAll([j, j2], z3.Implies(z3.And(0 <= j, j < j2, j2 < r.n), srcf(j) < srcf(j2))),
             z3.ForAll([i], z3.Implies(z3.And(0 <= i, i < n, c_i), z3.And(0 <= invf(i), invf(i) < r.n, srcf(invf(i)) == i))),
+            # ground instance for `if [.. comprehension ..]:` (a non-empty result has a first element)
+            z3.Implies(r.n > 0, z3.And(0 <= srcf(0), srcf(0) < n, c_at(srcf(0)), r.a[0] == f_at(srcf(0)))),
         )
         return r
